@@ -542,8 +542,9 @@ def has_union(c) -> bool:
 
 
 def classes(case) -> List[str]:
-    """K_product: a selected variable that the condition does not bind in every true result (drained by itertools.product
-    before the first row); K_union: or_ over different variable sets (second pass over the right operand)"""
+    """K_product: a selected variable that the condition does not bind in every true result (before 32abf51 drained by
+    itertools.product before the first row -- finding C10-a, repaired; kept as a measured class); K_union: or_ over different
+    variable sets (second pass over the right operand: outside F10)"""
     out = []
     c = case["cond"]
     bound = eqlgen.must_bind(c, True) if c is not None else set()
@@ -654,12 +655,12 @@ def run(tier: str, seed: int, replay=None) -> int:
     rep = Report(PROP, tier, seed, "other")
     rep.trusted = core.COQ_TRUSTED + [
         "hand-written model Eql/Trace.v of the generator pipeline of symbolic.py (Variable / Literal / Attribute / Comparator / AND / "
-        "ElseIf / Union / Not, QueryObjectDescriptor.evaluate_selected_variables with itertools.product, An._evaluate__) and of the "
+        "ElseIf / Union (second pass: true results only) / Not, QueryObjectDescriptor.evaluate_selected_variables (lazy nested loops, bindings threaded), An._evaluate__) and of the "
         "domain cache hashed_data.py HashedIterable.__iter__ (replay of the cached elements, then the shared one-shot generator), "
         "tied by comparing event logs through the public API",
         "harness/c10.py: logging one-shot generators, logging attribute descriptors (classes LP / LT), log canonicaliser; "
         "harness/eqlgen.py (case generator, Gallina emission)",
-        "CPython generator protocol, itertools.product, filter/map laziness: not modelled, only observed through the logs",
+        "CPython generator protocol, filter/map laziness: not modelled, only observed through the logs",
     ]
     rep.assume = [
         "LEVEL partial: the theorems bound the demand of the MODEL; that the real engine runs user code exactly when the model "
@@ -742,7 +743,7 @@ def run(tier: str, seed: int, replay=None) -> int:
         while len(qcases) < nq + len([o for o in qorigin if o.startswith("corpus")]):
             c = normalise(eqlgen.gen_case(rq.fork(i), "quant"))
             i += 1
-            if eqlgen.has_quant(c["cond"]) and not classes(c):
+            if eqlgen.has_quant(c["cond"]):
                 qcases.append(c)
                 qorigin.append(f"genq:{i - 1}")
         rm = core.Rng(seed * 1000003 + 55)
